@@ -484,6 +484,14 @@ func (c *Cursor) Filter(ctx context.Context, idxStr string, val []interface{}) e
 			}
 		}
 	}
+	if c.t.Tree.Root.Size() == 0 {
+		// nothing was ever stored: the tree has no node a cursor could be
+		// positioned in (seeking in it indexes past an empty path)
+		c.currentKey = nil
+		c.currentRow = nil
+		c.eof = true
+		return nil
+	}
 	var err error
 	c.cursor, err = c.t.Tree.Root.Cursor(ctx)
 	if err != nil {
